@@ -323,6 +323,7 @@ pub fn edges_for(prop: Prop, tier: Tier, r: &dyn Runner, st: &St) -> Vec<Edge> {
         }
         Prop::C17 => { rawparts(r, tier, st, &mut v); movers(&mut v); if r.resizable() { v.push(Edge::Cap(Api::Erased, CapCall::Reserve, 2)); v.push(Edge::Cap(Api::Erased, CapCall::ShrinkToFit, 0)); } }
         Prop::C12 => { views(r, tier, st, &mut v); capacity(r, tier, st, bounds(prop, tier).lmax, &mut v); elementwise(r, tier, st, &mut v); v.retain(|e| !matches!(e, Edge::Cap(_, CapCall::PushRun, _))); }
+        Prop::C19 => { elementwise(r, tier, st, &mut v); ranges(r, tier, st, true, &mut v); clones(r, tier, st, &mut v); }
         Prop::C11 => { elementwise(r, tier, st, &mut v); ranges(r, tier, st, true, &mut v); clones(r, tier, st, &mut v); }
         Prop::C10 => { capacity(r, tier, st, bounds(prop, tier).lmax, &mut v); elementwise(r, tier, st, &mut v); }
         Prop::C04 => { wrong_types(r, tier, st, &mut v); movers(&mut v); }
@@ -338,7 +339,8 @@ pub fn reports(prop: Prop, class: Class, e: &Edge) -> bool {
     if class == Class::Machinery { return true; }
     match prop {
         Prop::C09 => matches!(class, Class::Vec | Class::Type | Class::Own),
-        Prop::C01 | Prop::C02 | Prop::C13 | Prop::C19 => matches!(class, Class::Vec | Class::Type | Class::Iter),
+        Prop::C19 => matches!(class, Class::Vec | Class::Type | Class::Iter | Class::Cap | Class::Alloc),
+        Prop::C01 | Prop::C02 | Prop::C13 => matches!(class, Class::Vec | Class::Type | Class::Iter),
         Prop::C08 => matches!(class, Class::Vec | Class::Type | Class::Cap | Class::Mem),
         Prop::C03 => class == Class::Own,
         Prop::C04 => matches!(class, Class::Type | Class::Vec | Class::Own),
